@@ -162,6 +162,9 @@ func (s *Scanner) init(input string) error {
 			return s.error(s.pos, "no input found after delimiter %q", d)
 		}
 		s.input = parts[1]
+		// Count the skipped directive line, as statement
+		// positions are relative to the scanned input.
+		s.total = len(input) - len(parts[1])
 	}
 	return nil
 }
